@@ -35,6 +35,11 @@ fn lattice(vars: &[Var]) -> Vec<Vec<(u64, i64)>> {
     out
 }
 
+/// true when no point satisfies f <= 0 at all (then an infeasibility report would be the right answer)
+fn any_feas_strict_none(vals: &[Q]) -> bool {
+    vals.iter().all(|v| *v > Q::zero())
+}
+
 fn qpoint(p: &[(u64, i64)]) -> QState {
     p.iter().map(|(k, v)| (*k, qi(*v))).collect()
 }
@@ -48,7 +53,7 @@ impl Property for C13 {
          oracle = brute force over EVERY lattice point of the box and EVERY integer slack value in the new variable's bounds, in exact rational arithmetic; non-trivial = converted, >=2 variables, both feasible and infeasible lattice points; distinct = sha256(instance, call)"
     }
     fn required_labels(&self) -> Vec<String> {
-        ["outcome=converted", "outcome=relaxed", "outcome=infeasible", "outcome=range-exceeded", "reject=unknown-id", "reject=equality", "reject=continuous", "rational-coeff", "quadratic", "op=convert", "op=add-slack", "other-constraints", "negative-box", "binary-variable"].iter().map(|s| s.to_string()).collect()
+        ["outcome=converted", "outcome=relaxed", "outcome=infeasible", "outcome=range-exceeded", "reject=unknown-id", "reject=equality", "reject=continuous", "rational-coeff", "quadratic", "op=convert", "op=add-slack", "other-constraints", "negative-box", "binary-variable", "unsorted-variable-list", "limit=needed", "limit=needed-1"].iter().map(|s| s.to_string()).collect()
     }
     fn cases(&self, tier: Tier) -> usize {
         match tier {
@@ -78,6 +83,8 @@ impl Property for C13 {
         // variables
         let mut vars: Vec<Var> = vec![];
         let idbase = *t.pick(&[0u64, 1, 10]);
+        let id_step: u64 = if t.coin() { 1 } else { 2 };
+        let var_order_seed = t.byte();
         for i in 0..nv {
             let binary = t.p(64);
             let (lo, hi) = if binary {
@@ -92,7 +99,7 @@ impl Property for C13 {
             if binary {
                 ctx.label("binary-variable");
             }
-            vars.push(Var { id: idbase + 2 * i as u64, kind: if binary { KIND_BINARY } else { KIND_INTEGER }, lo, hi });
+            vars.push(Var { id: idbase + id_step * i as u64, kind: if binary { KIND_BINARY } else { KIND_INTEGER }, lo, hi });
         }
         // f: terms with rational coefficients
         let nterms = 1 + t.choice(4);
@@ -134,6 +141,8 @@ impl Property for C13 {
         }
         // every monomial occurs once and carries the correctly rounded value of its rational coefficient
         // (the quantifier speaks of rational coefficients rendered to f64, not of sums of rounded parts)
+        let mut content: Q = qi(1);
+        let mut intended = Poly::zero();
         let terms: Vec<(Vec<u64>, f64)> = {
             let mut merged: std::collections::BTreeMap<Vec<u64>, Q> = Default::default();
             for (m, c) in &terms {
@@ -142,6 +151,22 @@ impl Property for C13 {
                 // recover the intended p/q exactly: c was built as num/den with den | 120
                 let r = (q(*c) * qi(120)).round() / qi(120);
                 *merged.entry(k).or_insert_with(Q::zero) += r;
+            }
+            for (k, c) in &merged {
+                intended.add_term(k.clone(), c.clone());
+            }
+            {
+                // minimal positive multiplier making all coefficients integral: lcm(denominators) / gcd(numerators)
+                use num::Integer;
+                let mut l = num::BigInt::from(1);
+                let mut g = num::BigInt::from(0);
+                for c in merged.values().filter(|c| !c.is_zero()) {
+                    l = l.lcm(c.denom());
+                    g = g.gcd(c.numer());
+                }
+                if !g.is_zero() {
+                    content = Q::new(l, g);
+                }
             }
             merged
                 .into_iter()
@@ -164,7 +189,17 @@ impl Property for C13 {
         // instance
         let mut inst = v1::Instance::default();
         inst.sense = SENSE_MIN;
-        for v in &vars {
+        // the order of the variable list in the message is arbitrary (not sorted by id)
+        let mut order: Vec<usize> = (0..vars.len()).collect();
+        {
+            let seed = [var_order_seed, var_order_seed.wrapping_mul(31), var_order_seed.wrapping_add(97)];
+            let mut tp = Tape::new(&seed);
+            tp.shuffle(&mut order);
+        }
+        if order.windows(2).any(|w| vars[w[0]].id > vars[w[1]].id) {
+            ctx.label("unsorted-variable-list");
+        }
+        for v in order.iter().map(|i| &vars[*i]) {
             let mut dv = v1::DecisionVariable::default();
             dv.id = v.id;
             dv.kind = v.kind;
@@ -212,7 +247,9 @@ impl Property for C13 {
         let all_feas = feas.iter().all(|b| *b);
         // needed slack range for the conversion: content factor a (exact, from the intended rationals is not
         // available; compute from the exact f64-read polynomial with denominators limited to 1e6)
-        let minv = vals.iter().min().unwrap().clone();
+        let _minv_float = vals.iter().min().unwrap().clone();
+        // slack range needed by the intended rational problem (exact): -min a*f over the lattice
+        let minv = pts.iter().map(|p| intended.eval(&qpoint(p)).unwrap()).min().unwrap();
         let mut call_id = cid;
         match reject {
             1 => {
@@ -242,21 +279,26 @@ impl Property for C13 {
             _ => {}
         }
         // limit
-        let needed_est = {
-            // rough: -min f * 60 (lcm of denominators <= 120) is generous
-            let m = q_to_f64(&minv);
-            if m < 0.0 {
-                (-m * 120.0).ceil() as u64
+        let needed_exact: u64 = {
+            let n = -(content.clone() * minv.clone());
+            if n > qi(0) {
+                q_to_f64(&n.ceil()).min(1e9) as u64
             } else {
                 1
             }
         };
         let limit: u64 = match limit_mode {
-            0 => needed_est.max(1),
-            1 => t.choice(6) as u64 + 1,
+            0 => needed_exact.max(1),
+            1 => needed_exact.saturating_sub(1 + t.choice(2) as u64).max(1),
             2 => 100_000,
             _ => 1 + t.choice(3) as u64,
         };
+        if limit == needed_exact {
+            ctx.label("limit=needed");
+        }
+        if limit + 1 == needed_exact {
+            ctx.label("limit=needed-1");
+        }
         ctx.fp_msg(&inst);
         ctx.fp(&[op_add as u8, reject as u8]);
         ctx.fp(&limit.to_le_bytes());
@@ -318,6 +360,16 @@ impl Property for C13 {
                     if linear && limit >= 100_000 {
                         return fail("C13/range-exceeded-with-generous-limit", format!("error {e:#} although the limit is generous: {}", what()));
                     }
+                    if linear {
+                        // interval analysis is exact for a normalised linear function over a box
+                        if vals.iter().all(|v| *v <= q(-1e-9)) {
+                            return fail("C13/always-satisfied-rejected", format!("the inequality always holds (max f = {}), so it must be moved to the removed constraints, but the call failed: {e:#}: {}", q_to_f64(vals.iter().max().unwrap()), what()));
+                        }
+                        let needed = -(content.clone() * minv.clone());
+                        if needed <= qi(limit as i64) && !any_feas_strict_none(&vals) {
+                            return fail("C13/range-within-limit-rejected", format!("needed slack range {} is within the limit {limit} but the call failed: {e:#}: {}", q_to_f64(&needed), what()));
+                        }
+                    }
                     Ok(())
                 }
             }
@@ -360,6 +412,12 @@ impl Property for C13 {
                         if linear && vals.iter().all(|v| *v <= q(-1e-9)) {
                             // interval analysis is exact for linear functions over a box whose corners are lattice points
                             return fail("C13/always-satisfied-not-relaxed", format!("every point satisfies the linear inequality but it was not relaxed: {}", what()));
+                        }
+                        if linear && !op_add {
+                            let needed = -(content.clone() * minv.clone());
+                            if needed > qi(limit as i64) {
+                                return fail("C13/limit-not-enforced", format!("needed slack range {} exceeds the caller's limit {limit} but the constraint was converted: {}", q_to_f64(&needed), what()));
+                            }
                         }
                         // the slack variable
                         if inst.decision_variables.len() != before.decision_variables.len() + 1 {
